@@ -68,7 +68,6 @@ def crc8404B_default(vc):
 # where the checksum is USED: the auth-block frame stores exactly BE2(crc8404B(payload)) - all 16 bits, 0xFFFF included
 # (the frame contract of C08, an obligation here too: a CRC that is right but stored wrongly is not "the same CRC")
 from pyvc.harness import reuse as _reuse
-from contracts import C08 as _C08x
 _reuse("C08/encrypt.frame", "C15/auth-block-frame.stores-BE2(crc)")
 _reuse("C08/decrypt.inverse", "C15/auth-block-frame.crc-verified-on-unwrap")
 # ... and on the way back the stored 16 bits are compared with the CRC of the payload for EVERY stored value (0000 and
